@@ -1,8 +1,9 @@
 /-
 PriorityLock / PriorityTask (src/asynkit/experimental/priority.py) as a small-step transition
-system over an abstract task/future kernel.  The model describes the code WITH the two repairs
+system over an abstract task/future kernel.  The model describes the code WITH the three repairs
 fixes/C13-double-wakeup.patch (`_wake_up_first` does nothing while a queued waiter's future is
-already done) and fixes/C12-propagate-key.patch (`propagate_priority` re-keys the waiting *task*).
+already done), fixes/C12-propagate-key.patch (`propagate_priority` re-keys the waiting *task*) and
+fixes/C12-fallback-rekey.patch (a waiter that gives up propagates again to the lock's owner).
 
 One model state per `await`.  A task is resumed by `Ev.resume` (one ready handle runs: the loop
 calls Task.__step / Task.__wakeup), then performs any number of non-suspending operations and
@@ -240,7 +241,11 @@ def State.doResume (s : State) (i : Nat) : State :=
     let l := s.locks k
     let s := s.setLock k { l with waiters := removeTask l.waiters i }
     let s := if exc then s else s.takeLock k i
-    if (s.locks k).locked then s else s.wakeUpFirst k
+    if (s.locks k).locked then
+      -- fixes/C12-fallback-rekey.patch: a waiter that gives up while another task holds the lock
+      -- propagates once more, so that the owner's keys fall back with its effective priority
+      (if exc then (match (s.locks k).owner with | some o => propT s s.fuel o | none => s) else s)
+    else s.wakeUpFirst k
   | _ =>
     { s.setTask i { t with status := .running, mustCancel := false, rkey := none, pos := .top }
       with cur := some i }
